@@ -4,6 +4,7 @@ import (
 	"context"
 	"errors"
 	"fmt"
+	tsort "github.com/go-task/task/v3/internal/sort"
 	"hash/fnv"
 	"io"
 	"os"
@@ -45,6 +46,7 @@ type Options struct {
 	WaitLog      bool // verbose logging on; "skipping execution of task" lines become 'L' trace events (no scheduling point)
 	ListJSON     bool // instead of running tasks: e.ListTasks(list-all, json)
 	SchedSetup   bool // Setup's reader/merge goroutines are scheduler threads too (not run inline)
+	SchedDump    bool // with DumpOnly: the dump's own compile goroutines (GetTaskList) are scheduler threads too
 	DumpOnly     bool // after Setup: record a canonical dump of what was loaded instead of running tasks
 }
 
@@ -255,7 +257,15 @@ func (sc *Scenario) Body(dir string, x *Exec, probe *Probe, raw *RawWriter) func
 			return
 		}
 		if sc.Opts.DumpOnly {
+			// (the dump itself is not part of the schedule space: its compile goroutines run inline;
+			// Go-map orders inside it remain explored choices)
+			if sc.Opts.SchedDump {
+				x.Aux["dump"] = DumpExecutor(e)
+				return
+			}
+			vsched.Inline(true)
 			x.Aux["dump"] = DumpExecutor(e)
+			vsched.Inline(false)
 			return
 		}
 		if sc.Opts.ListJSON {
@@ -394,13 +404,32 @@ func DumpExecutor(e *task.Executor) string {
 		fmt.Fprintf(&b, " %s=%v", k, v.Value)
 	}
 	b.WriteString("\n")
+	// what --list-all shows with the sorter that keeps definition order; its (fast-)compiled tasks
+	// are the ones dumped below
+	saved := e.TaskSorter
+	e.TaskSorter = tsort.NoSort
+	compiled := map[string]*ast.Task{}
+	b.WriteString("list(none):")
+	if ts, err := e.GetTaskList(); err != nil {
+		fmt.Fprintf(&b, " error=%v", err)
+	} else {
+		for _, t := range ts {
+			b.WriteString(" " + t.Task)
+			compiled[t.Task] = t
+		}
+	}
+	b.WriteString("\n")
+	e.TaskSorter = saved
 	for name := range e.Taskfile.Tasks.Keys(nil) {
 		t, _ := e.Taskfile.Tasks.Get(name)
 		fmt.Fprintf(&b, "task %s aliases=%v internal=%v silent=%v", name, t.Aliases, t.Internal, t.Silent)
-		ct, err := e.FastCompiledTask(&task.Call{Task: name})
-		if err != nil {
-			fmt.Fprintf(&b, " compile-error=%v\n", err)
-			continue
+		ct := compiled[name]
+		if ct == nil {
+			var err error
+			if ct, err = e.FastCompiledTask(&task.Call{Task: name}); err != nil {
+				fmt.Fprintf(&b, " compile-error=%v\n", err)
+				continue
+			}
 		}
 		fmt.Fprintf(&b, " dir=%s", strings.TrimPrefix(ct.Dir, e.Dir))
 		for _, vs := range []*ast.Vars{t.IncludeVars, t.IncludedTaskfileVars} {
